@@ -29,12 +29,16 @@ func runC15(c *core.Ctx) {
 	c.Clause("C15.4 every task is answered or handed to a holder that is drained (E7)")
 	h.taskTypestate("C15.4 task-typestate")
 	h.transferReplyMeaning("C15.4b transfer-state")
+	h.replyRPCCompletes("C15.4c rpc-completion")
 	c.Clause("C15.5 shutdown can make progress: ordering of Serve's epilogue, single closer of Raft.close")
 	h.shutdownOrder("C15.5 shutdown")
 	c.Clause("C15.6 panic conversion routes through recoverErr")
 	h.panicConversion("C15.6 panic-conversion")
+	h.unexpectedErrStops("C15.6b unexpected-error-stops")
 	c.Clause("C15.7 blocking channel operations of goroutines outside a select with a stop/timer case are the frozen, individually justified set (E7b)")
 	h.blockingOps("C15.7 blocking-ops")
+	c.Clause("C15.8 values of two-result type assertions are dereferenced only where the assertion succeeded")
+	h.commaOkDiscipline("C15.8 comma-ok")
 }
 
 type guardSpec struct{ field, mu, reason string }
